@@ -551,7 +551,9 @@ def run_robust(case):
     fpath = os.path.join(d, FILE_NAME)
     with open(fpath, "wb") as f:
         f.write(data)
-    budget = _budget(len(text), ver)
+    with open(fpath, "r", encoding="utf-8") as f:
+        content = f.read()  # what the loader will see (universal newlines: \r\n and \r become \n)
+    budget = _budget(len(content), ver)
     del _W["parse_calls"][:]
     _W["file_steps"] = 0
     outcome = None
@@ -580,7 +582,7 @@ def run_robust(case):
         steps.stop()
     used = _W["file_steps"]
     if outcome == "step-budget":
-        info["loop_frame"] = _loop_frame(text, ver)
+        info["loop_frame"] = _loop_frame(content, ver)
     reached = len(_W["parse_calls"])
     parsed_really = any(_W["parse_calls"])
     obs = {
@@ -588,7 +590,7 @@ def run_robust(case):
         "robust_%s_%s" % (ver, case["kind"]): 1,
         "outcome_" + outcome: 1,
         "max_robust_step_ratio": round(used / float(budget), 5),
-        "max_robust_steps_per_char": round(used / float(len(text) + 50), 2),
+        "max_robust_steps_per_char": round(used / float(len(content) + 50), 2),
         "loader_parse_calls": reached,
     }
     if outcome == "parsing-error":
